@@ -611,8 +611,45 @@ fn run_children(ctx: &Ctx, n: usize) {
     }
 }
 
+/// "returns once both streams close": a child that closes both streams and keeps running for a while must not hold
+/// spawn_and_write_streams back until it exits.
+fn run_early_close(ctx: &Ctx, sleeps_ms: &[u64]) {
+    let results = par_map(sleeps_ms, sleeps_ms.len().max(1), |ms| {
+        let script = format!("x:5,o:70000,e:1000,co,ce,p:{}", ms * 1000);
+        let mut wo: Vec<u8> = vec![];
+        let mut we: Vec<u8> = vec![];
+        let started = std::time::Instant::now();
+        let r = Command::new(bin_dir().join("vchild")).arg(&script).stdin(std::process::Stdio::null()).spawn_and_write_streams(&mut wo, &mut we);
+        match r {
+            Err(e) => Err(Fail::new("C19:io-error", e.to_string())),
+            Ok(mut child) => {
+                let returned_after = started.elapsed();
+                let still_running = matches!(child.try_wait(), Ok(None));
+                let status = child.wait().map_err(|e| Fail::new("C19:io-error", e.to_string()));
+                match status {
+                    Err(f) => Err(f),
+                    Ok(st) => {
+                        if !still_running {
+                            Err(Fail::new("C19:returns-only-after-exit", format!("child closed both streams and slept {ms} ms; spawn_and_write_streams returned after {returned_after:?} with the child already gone")))
+                        } else if st.code() != Some(5) || wo.len() != 70000 || we.len() != 1000 {
+                            Err(Fail::new("C19:early-close-output-differs", format!("status {:?}, {} / {} bytes", st.code(), wo.len(), we.len())))
+                        } else {
+                            Ok(())
+                        }
+                    }
+                }
+            }
+        }
+    });
+    for (ms, r) in sleeps_ms.iter().zip(results) {
+        ctx.eval();
+        ctx.class("child:closes-both-streams-then-keeps-running");
+        ctx.check_case("early-close", r, || json!({"early_close_sleep_ms": ms}));
+    }
+}
+
 pub fn run(ctx: &Ctx) {
-    ctx.set_rule("(1) child scripts: 0..8 steps of (stream, size in {0,1..200,4096,65536,65537,..262144}, pause), single-threaded interleaved or one thread per stream, early close of a stream, exit code; run through output_and_write_streams and spawn_and_write_streams, compared bytewise with the script's per-stream content. (2) MappedWrite: EXHAUSTIVE all byte strings of length <= L over {marker,a,b} (L=8 quick, 10 thorough) x all 2^(n-1) chunkings into write calls (+ zero-length writes on every fifth chunking) x finalisation by drop and by unwrap, mapping seg -> '[' seg ']'; sampled inputs <=200 bytes with add_prefix / map_utf8_lossy / repeat under random chunkings. (3) TeeWrite under the same chunkings with short-writing targets (1..3 bytes per write). Non-trivial: (1) a stream carries more than one 64 KiB pipe buffer while the other stream is still open; (2) input contains a marker and a write boundary falls inside a segment; distinct = hash of script / (input, chunking).");
+    ctx.set_rule("(1) child scripts: 0..8 steps of (stream, size in {0,1..200,4096,65536,65537,..262144}, pause), single-threaded interleaved or one thread per stream, early close of a stream, exit code; run through output_and_write_streams and spawn_and_write_streams, compared bytewise with the script's per-stream content; children that close both streams and keep running for 3-6 s must not delay the return of spawn_and_write_streams. (2) MappedWrite: EXHAUSTIVE all byte strings of length <= L over {marker,a,b} (L=8 quick, 10 thorough) x all 2^(n-1) chunkings into write calls (+ zero-length writes on every fifth chunking) x finalisation by drop and by unwrap, mapping seg -> '[' seg ']'; sampled inputs <=200 bytes with add_prefix / map_utf8_lossy / repeat under random chunkings. (3) TeeWrite under the same chunkings with short-writing targets (1..3 bytes per write). Non-trivial: (1) a stream carries more than one 64 KiB pipe buffer while the other stream is still open; (2) input contains a marker and a write boundary falls inside a segment; distinct = hash of script / (input, chunking).");
     ctx.assume("deadlock is decided by a 30 s watchdog plus /proc/<child>/syscall showing the child blocked in write(2) on fd 1 or 2; any other watchdog expiry is reported as inconclusive (exit 2)");
     ctx.assume("the OS scheduler is not controlled; the blocking structure is controlled through the child's script");
     ctx.set_exhaustive(true);
@@ -624,6 +661,7 @@ pub fn run(ctx: &Ctx) {
     run_writers_exhaustive(ctx, if thorough { 10 } else { 8 });
     ctx.run_prop("mapped-long", long_strategy(), ctx.tier.pick(5_000, 200_000), long_json, |c| check_long(ctx, c));
     run_children(ctx, ctx.tier.pick(400, 6000));
+    run_early_close(ctx, if thorough { &[3000, 3000, 4000, 5000, 6000, 3500] } else { &[3000, 4000] });
 }
 
 pub fn replay(ctx: &Ctx, sub: &str, case: &Value) {
@@ -643,6 +681,7 @@ pub fn replay(ctx: &Ctx, sub: &str, case: &Value) {
             let c = long_from_json(case);
             ctx.check_case(sub, check_long(ctx, &c), || case.clone());
         }
+        "early-close" => run_early_close(ctx, &[case["early_close_sleep_ms"].as_u64().unwrap_or(3000)]),
         _ => {
             ctx.eval();
             let s = script_from_json(case);
